@@ -816,10 +816,32 @@ def _loop_spec(H, on_preserve=None, extra_inv=None, extra_lemmas=None):
     return cutloops.LoopSpec(inv, name='for time_step', havoc={'outputs': havoc_outputs}, heap_havoc=heap_havoc, lemmas=lemmas)
 
 
-def hedge_loop_ob(model_kind, H, aspects=('reads', 'last', 'shape', 'prev'), props=('C02', 'C13'), und='brownian', dkind='european', prev_first=False):
-    """compute_hedge, state-dependent branch, for EVERY number of steps: the real loop cut by the invariant of `_loop_spec`."""
-    tag = '%s,H=%d,stepwise,all T (loop invariant),%s%s%s' % (model_kind, H, dkind, (',' + und) if und != 'brownian' else '', ',prev_hedge declared first' if prev_first else '')
+def _mk_static(spec):
+    """a declared static feature of a layout: a built-in name, or ('G2', [inputs]) = a ModuleOutput with TWO output columns (uninterpreted G2)"""
+    from pfhedge.features import get_feature, ModuleOutput
+    if isinstance(spec, str):
+        return get_feature(spec)
+    import torch
+    from pfv.torchlib.tensor import Tensor
+
+    class _G2(torch.nn.Module):
+        def forward(self, x):
+            rd = x.reader()
+            Fn = x._shape[-1]
+            return Tensor.fresh(lambda idx: tm.app('G2', idx[-1], *[rd(idx[:-1] + (tm.const(k_, 'I'),)) for k_ in range(Fn)]), x._shape[:-1] + (2,), x.dtype, x.deps)
+    return ModuleOutput(_G2(), inputs=list(spec[1]))
+
+
+def hedge_loop_ob(model_kind, H, aspects=('reads', 'last', 'shape', 'prev'), props=('C02', 'C13'), und='brownian', dkind='european', prev_first=False, layout=None):
+    """compute_hedge, state-dependent branch, for EVERY number of steps: the real loop cut by the invariant of `_loop_spec`.
+    layout (user model only): the declared feature list as specs, 'prev_hedge' marking the recurrent block, e.g.
+    [('G2', ['moneyness', 'time_to_maturity']), 'prev_hedge', 'time_to_maturity'] - a multi-column static feature before prev_hedge."""
+    tag = '%s,H=%d,stepwise,all T (loop invariant),%s%s%s%s' % (model_kind, H, dkind, (',' + und) if und != 'brownian' else '', ',prev_hedge declared first' if prev_first else '',
+                                                              (',layout ' + '|'.join(x if isinstance(x, str) else 'ModuleOutput(2 columns)' for x in layout)) if layout else '')
     STATIC = ['log_moneyness', 'time_to_maturity', 'volatility']
+    if layout is None:
+        layout = (['prev_hedge'] + STATIC) if prev_first else (STATIC + ['prev_hedge'])
+    WIDTH = lambda spec: 2 if not isinstance(spec, str) else (H if spec == 'prev_hedge' else 1)
 
     def check():
         t0 = time.time()
@@ -835,7 +857,7 @@ def hedge_loop_ob(model_kind, H, aspects=('reads', 'last', 'shape', 'prev'), pro
             exp_cols = []
             if model_kind == 'user':
                 i_prev = state['time_step'] - 1
-                exp_cols = [get_feature(nm_).of(state['derivative']).get(i_prev) for nm_ in STATIC]
+                exp_cols = [None if spec == 'prev_hedge' else _mk_static(spec).of(state['derivative']).get(i_prev) for spec in layout]
             ctx().notes.append(('iter', state['outputs'], lift(state['time_step']), list(rec), state['self'].get_buffer('prev_output'), exp_cols))
         rec = []
         cut, info = cutloops.cut(Hedger.compute_hedge, {0: _loop_spec(H, on_preserve)})
@@ -848,7 +870,7 @@ def hedge_loop_ob(model_kind, H, aspects=('reads', 'last', 'shape', 'prev'), pro
                 assume_nonneg(c, 'variance')
             if H >= 2:
                 assume_positive_spot(c, 'spot2')
-            feats = ((['prev_hedge'] + STATIC) if prev_first else (STATIC + ['prev_hedge'])) if model_kind == 'user' else None
+            feats = [(_mk_static(spec) if not isinstance(spec, str) else spec) for spec in layout] if model_kind == 'user' else None
             if model_kind == 'user':
                 import pfhedge.nn as pnn
                 hedger = pnn.Hedger(UserModel.make(H, record=rec), feats)
@@ -933,22 +955,25 @@ def hedge_loop_ob(model_kind, H, aspects=('reads', 'last', 'shape', 'prev'), pro
                         rows.append(('[prev] the model is called once per step', 'refuted', '%d calls' % len(inputs)))
                     else:
                         inp = inputs[0]
-                        F = 3
-                        ok_shape = len(inp._shape) == 3 and inp._shape[1] == 1 and inp._shape[2] == F + H
+                        total = sum(WIDTH(spec) for spec in layout)
+                        ok_shape = len(inp._shape) == 3 and inp._shape[1] == 1 and inp._shape[2] == total
                         rows.append(('[prev] model input is (N, 1, F + H)', 'proved' if ok_shape else 'refuted', str(inp._shape)))
                         if ok_shape:
                             P_prev = tm.ite(tm.eq(i_new, tm.IZERO), tm.ZERO, tm.sel('hvS', n, tm.sub(i_new, tm.IONE), h))
-                            off_prev, off_static = (0, H) if prev_first else (F, 0)
-                            for hh in range(H):
-                                seen = inp.at((n, tm.IZERO, tm.const(off_prev + hh, 'I')))
-                                want = tm.subst(P_prev, {h: tm.const(hh, 'I')})
-                                r = fc.prove_eq(facts + rng, seen, want, timeout_ms=20000)
-                                rows.append(('[prev] prev_hedge[%d] (declared position %d) seen by the model at step i == output of step i-1 (zero at step 0)' % (hh, off_prev + hh), st(r), tm.show(seen)[:200] if r.status != 'unsat' else ''))
-                            # the other columns are the declared features, in the declared order
-                            for k_, (nm_, col) in enumerate(zip(STATIC, exp_cols)):
-                                seen = inp.at((n, tm.IZERO, tm.const(off_static + k_, 'I')))
-                                r = fc.prove_eq(facts + rng, seen, col.at((n, tm.IZERO, tm.IZERO)), timeout_ms=20000)
-                                rows.append(('[prev] model input column %d == feature %s at step i (declared order)' % (off_static + k_, nm_), st(r), tm.show(seen)[:200] if r.status != 'unsat' else ''))
+                            off = 0
+                            for spec, col in zip(layout, exp_cols):
+                                w_ = WIDTH(spec)
+                                for cc in range(w_):
+                                    seen = inp.at((n, tm.IZERO, tm.const(off + cc, 'I')))
+                                    if spec == 'prev_hedge':
+                                        want = tm.subst(P_prev, {h: tm.const(cc, 'I')})
+                                        label = '[prev] prev_hedge[%d] (declared position %d) seen by the model at step i == output of step i-1 (zero at step 0)' % (cc, off + cc)
+                                    else:
+                                        want = col.at((n, tm.IZERO, tm.const(cc, 'I')))
+                                        label = '[prev] model input column %d == feature %s%s at step i (declared order)' % (off + cc, spec if isinstance(spec, str) else 'ModuleOutput', '' if w_ == 1 else '[%d]' % cc)
+                                    r = fc.prove_eq(facts + rng, seen, want, timeout_ms=20000)
+                                    rows.append((label, st(r), tm.show(seen)[:200] if r.status != 'unsat' else ''))
+                                off += w_
                 continue
             if p.outcome() != 'returns':
                 return Verdict('unknown', 'engine', time.time() - t0, 'path %s: %s %s' % (p.outcome(), p.exception, p.traceback[-700:]), sample=sample)
@@ -1365,14 +1390,36 @@ for order in ("last", "first"):
         if not torch.allclose(x[:, 0, sl], want): bad.append((order, H, k, "prev_hedge != previous output"))
         col = 0 if order == "last" else H
         if not torch.allclose(x[:, 0, col], lm[:, k]): bad.append((order, H, k, "log_moneyness not at its declared position"))
-result = {"got": [str(b) for b in bad], "ref": []}
+# a multi-column static feature (ModuleOutput with two outputs) declared BEFORE prev_hedge, another static one after it
+from pfhedge.features import ModuleOutput
+for H in (1, 2):
+    und = BrownianStock(dt=0.01); d = EuropeanOption(und, maturity=0.2); d.simulate(n_paths=5)
+    others = [BrownianStock(dt=0.01) for _ in range(H - 1)]
+    for o in others: o.simulate(n_paths=5, time_horizon=0.2)
+    enc = torch.nn.Linear(2, 2)
+    seen = []
+    class M2(torch.nn.Module):
+        def forward(self, x):
+            seen.append(x.clone()); return x[..., 2:2 + H] * 0.25 + x[..., :1] * 0.5 + 0.1
+    hedger = pnn.Hedger(M2(), [ModuleOutput(enc, ["moneyness", "time_to_maturity"]), "prev_hedge", "time_to_maturity"])
+    with torch.no_grad():
+        out = hedger.compute_hedge(d, hedge=[und] + others)
+        mny, ttm = d.moneyness(), d.time_to_maturity()
+        for k, x in enumerate(seen):
+            if tuple(x.shape) != (5, 1, 3 + H): bad.append(("layout", H, k, "shape", tuple(x.shape))); continue
+            e_ = enc(torch.stack([mny[:, k], ttm[:, k]], dim=-1))
+            want = torch.zeros(5, H) if k == 0 else out[:, :, k - 1]
+            if not torch.allclose(x[:, 0, :2], e_, atol=1e-6): bad.append(("layout", H, k, "ModuleOutput columns not at positions 0, 1"))
+            if not torch.allclose(x[:, 0, 2:2 + H], want): bad.append(("layout", H, k, "prev_hedge block not at its declared position"))
+            if not torch.allclose(x[:, 0, 2 + H], ttm[:, k]): bad.append(("layout", H, k, "time_to_maturity not at its declared position"))
+result = {"got": [str(b) for b in bad][:10], "ref": []}
 '''
 
 
 def _replay_prev():
     r = real_exec(PREV_REPLAY, {}, timeout=300)
     ok = r.get('ok') and r['result']['got'] == []
-    return {'real': r, 'confirmed': not ok, 'note': 'replay: recording model with H = 1, 2, 3 hedging instruments'}
+    return {'real': r, 'confirmed': not ok, 'note': 'replay: recording model with H = 1, 2, 3 hedging instruments, prev_hedge declared first / last / between a two-column ModuleOutput and another feature'}
 
 
 def c03_obligations(seed, tier='quick'):
@@ -1387,6 +1434,8 @@ def c03_obligations(seed, tier='quick'):
         obs.append(batched_vs_stepwise_loop_ob(H))
         obs.append(hedge_loop_ob('user', H, aspects=('prev', 'shape'), props=('C03',)))
     obs.append(hedge_loop_ob('user', 2, aspects=('prev', 'shape'), props=('C03',), prev_first=True))
+    obs.append(hedge_loop_ob('user', 1, aspects=('prev', 'shape'), props=('C03',), layout=[('G2', ['moneyness', 'time_to_maturity']), 'prev_hedge', 'time_to_maturity']))
+    obs.append(hedge_loop_ob('user', 2, aspects=('prev', 'shape'), props=('C03',), layout=['log_moneyness', 'prev_hedge', ('G2', ['log_moneyness', 'volatility']), 'time_to_maturity']))
     return obs
 
 
